@@ -6,7 +6,8 @@ The real `Message.set_text / get_text` (with `infer_content_encoding`, `parse_co
     parameter, in-body declaration prefix (BOM, <meta charset=X>, <?xml encoding=X?>, @charset "X";) and one or
     two code points from the classes ASCII / Latin-1 high / BMP / astral / lone (escape) surrogate;
   * under CrossHair with a *symbolic code point* (all 1.1 M scalar values in one run) for the header
-    configurations whose codecs CrossHair models (utf-8, latin-1, the html/json utf-8 fallbacks, surrogateescape).
+    configurations whose codecs CrossHair models faithfully (utf-8, latin-1, the html/json utf-8 fallbacks); escape
+    surrogates are enumerated by the solver and run natively instead (CrossHair's error-handler models are not faithful).
 Oracle (from the property sentence): after `set_text(t)`, `get_text()` is `t`.
 Readings chosen (weaker ones, see GUIDE "Oracles"):
   * a leading U+FEFF in the *assigned* text is an encoding signature and may be consumed by the read
@@ -21,7 +22,7 @@ LEVEL = "model_checking"
 ASSUMPTIONS = [
     "a leading U+FEFF of the assigned text may be consumed as the encoding signature by get_text (weaker reading)",
     "texts with escape surrogates: strict get_text may raise ValueError, get_text(strict=False) must equal the text",
-    "CrossHair's codec models for utf-8 / latin-1 / surrogateescape stand for the C codecs in the code-point kernels "
+    "CrossHair's codec models for utf-8 / latin-1 (strict, scalar values only) stand for the C codecs in the code-point kernels "
     "(counterexamples are replayed natively; confirmations are cross-checked by the symx class representatives)",
 ]
 OUTSIDE = ["texts longer than declaration prefix + 2 code points", "lone surrogates outside U+DC80..U+DCFF (not surrogate-escaped bytes; set_text raises)",
@@ -114,17 +115,17 @@ def h_text(X, thorough):
         if g is not None and (g == BOM + text or (g.startswith(BOM) and not text.startswith(BOM))):
             return f"bom-prepended/charset-{cs}"
         if sniffed:
-            return f"inbody-declaration-overrides/{short}/{pk}"
+            return f"inbody-declaration-overrides/{short}"
         return f"mismatch/{short}/{cs}/{pk}"
 
     if has_sur:
         X.reach("surrogate")
         if strict_ok:
             X.check(same(got), "C32/" + klass(got), f"{cfg}: get_text() = {got!r} (Content-Type now {after!r}, raw {raw[:40]!r})")
-        X.check(same(lenient), "C32/" + klass(lenient) + "/lenient", f"{cfg}: get_text(strict=False) = {lenient!r} (Content-Type now {after!r}, raw {raw[:40]!r})")
+        X.check(same(lenient), "C32/" + klass(lenient), f"{cfg}: get_text(strict=False) = {lenient!r} (Content-Type now {after!r}, raw {raw[:40]!r})")
     else:
         if not strict_ok:
-            X.fail("C32/" + klass(None) + "/get-raises", f"{cfg}: get_text() raised {err} (Content-Type now {after!r}, raw {raw[:40]!r})")
+            X.fail("C32/" + klass(None), f"{cfg}: get_text() raised {err} (Content-Type now {after!r}, raw {raw[:40]!r})")
         X.check(same(got), "C32/" + klass(got), f"{cfg}: get_text() = {got!r} (Content-Type now {after!r}, raw {raw[:40]!r})")
         X.check(lenient == got, "C32/strict-lenient-differ", f"{cfg}: strict {got!r} lenient {lenient!r}")
     # declared charset only updated when the text cannot be represented otherwise
@@ -175,6 +176,35 @@ def h_second_assignment(X):
     X.reach("fixpoint")
 
 
+def h_escape_surrogates(X):
+    """every escape surrogate U+DC80..U+DCFF (= every undecodable byte 0x80..0xFF), enumerated by the solver and run
+    natively (CrossHair's codec models do not implement the surrogateescape/replace error handlers faithfully:
+    a CrossHair kernel for this class confirmed a mutant that fails natively, so it is not used)"""
+    from mitmproxy import http
+
+    c = X.int("surrogate", 0xDC80, 0xDCFF)
+    ch = chr(c)
+    header = X.choose("content_type", [None, "text/plain; charset=utf-8", "text/plain; charset=latin-1", "text/html", "application/json; charset=ascii"])
+    text = X.choose("shape", ["{}", "x{}", "{}x", "\xe9{}"]).format(ch)
+    h = http.Headers()
+    if header:
+        h["Content-Type"] = header
+    m = http.Response(b"HTTP/1.1", 200, b"OK", h, b"", None, 0, 0)
+    try:
+        m.set_text(text)
+    except ValueError as e:
+        X.fail("C32/surrogate/set-raises", f"Content-Type {header!r}: set_text({text!r}) raised {e}")
+    lenient = m.get_text(strict=False)
+    X.check(lenient == text, "C32/surrogate/lenient-read-differs", f"Content-Type {header!r}: set_text({text!r}); get_text(strict=False) = {lenient!r} (raw {m.raw_content!r})")
+    X.check(m.raw_content.count(bytes([c - 0xDC00])) >= 1, "C32/surrogate/byte-not-restored", f"escaped byte 0x{c - 0xDC00:02x} not in raw body {m.raw_content!r}")
+    try:
+        g = m.get_text()
+        X.check(g == text, "C32/surrogate/strict-read-differs", f"Content-Type {header!r}: get_text() = {g!r} for {text!r}")
+    except ValueError:
+        X.reach("strict-raises")
+    X.reach("end")
+
+
 KERNEL = "props/chx/c32_kernel.py"
 
 
@@ -195,7 +225,8 @@ def obligations(tier):
         Chx("codepoint-no-content-type", KERNEL, "check_no_content_type", twin="twin_no_content_type", timeout=to, bounds="every code point U+0000..U+00FF (symbolic), no Content-Type header (latin-1 fallback)", encoded=ENCODED),
         Chx("codepoint-json", KERNEL, "check_json_one", twin="twin_json_one", timeout=to, bounds=cp + ", Content-Type application/json (utf-8 by definition)", encoded=ENCODED),
         Chx("codepoint-html", KERNEL, "check_html", twin="twin_html", timeout=to, bounds=cp + ", Content-Type text/html without charset (meta sniffing regex runs on the symbolic body)", encoded=ENCODED),
-        Chx("codepoint-surrogateescape", KERNEL, "check_surrogate_escape", twin="twin_surrogate_escape", timeout=to,
-            bounds="every escape surrogate U+DC80..U+DCFF (symbolic), charset=utf-8, non-strict read", encoded=ENCODED[:2]),
+        Symx("escape-surrogates", h_escape_surrogates,
+             bounds="every escape surrogate U+DC80..U+DCFF (all 128 undecodable bytes, solver-enumerated) x 5 header configurations x 4 positions; native execution",
+             encoded=ENCODED[:2], must_reach=["end", "strict-raises"], parallel_depth=1),
     ]
     return obs
